@@ -839,6 +839,10 @@ class RT(object):
 
 def run_case(case):
   setup()
+  # listener ids restart at 1 in every case, as in a fresh process: small ids can then coincide with other small integers a
+  # subscription carries (its priority, once=True == 1), which is where id-based removal can go wrong
+  import pox.lib.revent.revent as _revent_mod
+  _revent_mod._nextEventID = 0
   out = Outcome()
   rt = RT(case, out)
   sink = io.StringIO()
@@ -1034,7 +1038,7 @@ def _enum(name, maxlen):
 # --------------------------------------------------------------------------- Hypothesis
 
 def _s_op(nested):
-  prio = st.sampled_from([-1, 0, 0, 0, 0, 5, 5, 7])
+  prio = st.sampled_from([-1, 0, 0, 0, 0, 5, 5, 7, 1, 2, 3, 4])
   # most operations meet on source 0 / type E0, so that deliveries with several handlers are the rule, not the exception
   src = st.sampled_from([0, 0, 0, 0, 0, 1, 2, 2])
   sub = st.fixed_dictionaries({
